@@ -126,7 +126,9 @@ def body(case):
 
 
 # ----------------------------------------------------------------- data-path arguments
-PATHABLE = ["equal_to", "not_equal_to", "less_than", "greater_than", "in_", "not_in", "in_range",
+# (in_range takes no path-valued bounds: the library evaluates `x in range(lo, hi)`, which for a non-integer x walks
+#  the whole range - a bound resolved from the document may be a 64-bit integer, and the C-level loop cannot be interrupted)
+PATHABLE = ["equal_to", "not_equal_to", "less_than", "greater_than", "in_", "not_in",
             "equal_to_approx", "keys_contain", "keys_contain_any_of", "required_keys", "allowed_keys",
             "items_contain", "keys_contain_N_of", "has_factor"]
 
